@@ -197,8 +197,10 @@ def vocab_cases(st, t):
         if vcs == ["numericClass"]:
             unit = v.a_unit(t) if ucs else None
             both("non-numeric-value", t.name + "/abc" + (" " + unit if unit else ""))
-        if vcs and set(vcs) <= {"nameClass"}:
+        if vcs and set(vcs) <= {"nameClass", "numericClass"} and not ucs:
+            # a value that no declared class accepts (not a number, and '$' is not a name character)
             both("forbidden-char-in-value", t.name + "/a$b")
+            both("forbidden-char-in-value", t.long + "/5$")
     if is_plain and (val is not None or t.value_child is None):
         u = Leaf(t, val or "").text("short")
         ul = Leaf(t, val or "").text("long")
@@ -350,6 +352,9 @@ def template_cases(st):
             add("valid:temporal", f"(Def/Pl, Onset, ({s3}))")
             if "Inset" in marks:
                 add("valid:temporal", f"(Def/Pl, Inset, ({s3}))")
+            for mk in marks:
+                add("toplevel-tag-nested", f"(Def/Pl, {mk}), ({s3}, (Def/Pl, {mk}))")
+                add("toplevel-tag-nested", f"({s3}, (Def/Ne, {mk})), (Def/Ne, {mk})")
             add("offset-with-group", f"(Def/Pl, Offset, ({s3}))")
             add("two-toplevel-tags", "(Def/Pl, Onset, Offset)")
     if attr("Event-context", "topLevelTagGroup"):
@@ -357,6 +362,7 @@ def template_cases(st):
         add("valid:event-context", f"(Event-context, {s1}), {s2}")
         add("toplevel-tag-ungrouped", f"Event-context, {s1}")
         add("toplevel-tag-nested", f"({s2}, (Event-context, ({s1})))")
+        add("toplevel-tag-nested", f"(Event-context, ({s1})), ({s2}, (Event-context, ({s1})))")
         if attr("Event-context", "unique"):
             add("unique-twice", f"(Event-context, ({s1})), (Event-context, ({s2}))")
     if attr("Duration", "topLevelTagGroup") and attr("Delay", "topLevelTagGroup"):
@@ -365,6 +371,8 @@ def template_cases(st):
             add("valid:duration", f"({mk}/3.5 ms, ({s1}, ({s2}))), {s3}")
             add("toplevel-tag-ungrouped", f"{mk}/3 s, ({s1})")
             add("toplevel-tag-nested", f"({s3}, ({mk}/3 s, ({s1})))")
+            add("toplevel-tag-nested", f"({mk}/3 s, ({s1})), ({s3}, ({mk}/3 s, ({s1})))")
+            add("toplevel-tag-nested", f"({s3}, ({mk}/3 s, ({s1}))), ({mk}/3 s, ({s1}))")
             add("duration-without-group", f"({mk}/3 s)")
             add("duration-extra-tag", f"({mk}/3 s, {s2}, ({s1}))")
             add("unknown-unit", f"({mk}/3 zzq, ({s1}))")
